@@ -62,7 +62,7 @@ def harnesses():
     # next to addmul's symbolic slices) - not registered; the bodies stay in c02.rs
     SMALLDOM = ("unit-limb sub-domain: every limb of one operand 0 or 1, the other operand FULL, one harness per operand order; UF layer, "
                 "exact on this sub-domain (all products fixed by the axioms 0*x = 0, 1*x = x)")
-    for b, tier in [(128, "quick"), (192, "thorough"), (256, "thorough")]:   # 250/320/512: no result in 1500 s (both orders in one harness)
+    for b, tier in [(128, "quick"), (192, "thorough")]:   # per operand order: 192 bits 340-440 s; 256 bits: no result in 2400 s; 250/320/512: none in 1500 s (both orders)
         l = nlimbs(b)
         w = 2 * l + 1
         for sw in (0, 1):
